@@ -16,6 +16,7 @@ import (
 	"github.com/influxdata/kapacitor/influxdb"
 	"github.com/influxdata/kapacitor/keyvalue"
 	"github.com/influxdata/kapacitor/models"
+	"github.com/influxdata/kapacitor/pipeline"
 	"github.com/influxdata/kapacitor/server/vars"
 	alertservice "github.com/influxdata/kapacitor/services/alert"
 	"github.com/influxdata/kapacitor/services/diagnostic"
@@ -587,4 +588,34 @@ func (e *Env) RunBatch(script string, perQuery [][]Bt) (defErr, runErr error) {
 	}
 	et.StopStats()
 	return nil, et.Wait()
+}
+
+// BatchCollectorsInScriptOrder returns the batch collectors of a running batch task ordered like
+// the task's query nodes appear in the script. TaskMaster.BatchCollectors returns them in the order
+// in which the executing batch node linked its children, which is the topological walk order of
+// the pipeline, not the script order (with two queries under one join it is the reverse).
+func (e *Env) BatchCollectorsInScriptOrder(et *kapacitor.ExecutingTask) ([]kapacitor.BatchCollector, error) {
+	cols := e.TM.BatchCollectors(et.Task.ID)
+	var ids []pipeline.ID
+	_ = et.Task.Pipeline.Walk(func(n pipeline.Node) error {
+		switch n.(type) {
+		case *pipeline.QueryNode, *pipeline.QueryFluxNode:
+			ids = append(ids, n.ID())
+		}
+		return nil
+	})
+	if len(ids) != len(cols) {
+		return nil, fmt.Errorf("task has %d batch collectors and %d query nodes", len(cols), len(ids))
+	}
+	// the query created k-th in the script has the k-th smallest node id
+	idx := make([]int, len(ids))
+	for i := range idx {
+		idx[i] = i
+	}
+	sort.Slice(idx, func(a, b int) bool { return ids[idx[a]] < ids[idx[b]] })
+	out := make([]kapacitor.BatchCollector, len(cols))
+	for k, i := range idx {
+		out[k] = cols[i]
+	}
+	return out, nil
 }
